@@ -93,6 +93,13 @@ class Registry:
     def sym_issubclass(self, ex, c, t):
         return None
 
+    def recursive_spec(self, key):
+        mod = key.split(':')[0]
+        cm = self.modules.get(mod)
+        if cm is None:
+            return None
+        return getattr(cm.py, 'RECURSIVE', {}).get(key.split(':')[1])
+
 
 # =============================================================================================
 # building inputs from shapes
@@ -139,9 +146,18 @@ class InputBuilder:
             return ref
         if isinstance(sh, dsl.Abs):
             iface = sh.iface if isinstance(sh.iface, dsl.Iface) else self.reg.ifaces[sh.iface]
-            ao = AbstractObj(IfaceRT(iface, self.reg), self._nm(sh.name, path))
+            nm = self._nm(sh.name, path)
+            ao = AbstractObj(IfaceRT(iface, self.reg), nm)
             for f, fs in sh.fields.items():
                 ao.fields[f] = self._build(fs, f'{path}.{f}')
+            # attributes are created eagerly so that every path / merged sub-evaluation sees the same symbols
+            for pn, p in iface.props.items():
+                if pn in ao.fields or p.fn is not None or p.const is not None:
+                    continue
+                if isinstance(p.kind, dsl.Shape):
+                    ao.fields[pn] = self._build(p.kind, f'{nm}.{pn}')
+                elif isinstance(p.kind, K.Kind):
+                    ao.fields[pn] = run.input(p.kind, f'{nm}.{pn}')
             return run.alloc(ao)
         if isinstance(sh, dsl.Fn):
             return P.AbstractFn(sh.name, sh.arg_kinds, sh.ret_kind, sh.may_raise, sh.functional)
@@ -209,6 +225,10 @@ class PropRT:
             return p.const
         if p.fn is not None:
             return p.fn(ex, ref)
+        if isinstance(p.kind, dsl.Shape):
+            v = InputBuilder(ex, ex.contracts)._build(p.kind, f'{cell.name}.{name}')
+            cell.fields[name] = v
+            return v
         v = ex.run.fresh(p.kind, f'{cell.name}.{name}')
         ex.run.inputs[f'{cell.name}.{name}'] = (p.kind, v.t)
         cell.fields[name] = v
@@ -226,6 +246,10 @@ class MethRT:
         if kwargs:
             args = list(args) + list(kwargs.values())
         evname = f'{cell.name}.{name}'
+        if m.field is not None:
+            if m.field in cell.fields:
+                return cell.fields[m.field]
+            return P.getattr_(ex, ref, m.field)
         if m.pre is not None:
             m.pre(ex, ref, args)
         raises = m.raises
@@ -550,12 +574,17 @@ def run_contract(table, registry, contract, feas_timeout_ms=2000, max_paths=400)
             avail['raised'] = outcome['exc'].cls
             avail['exc'] = outcome['exc']
             clauses = list(contract.ensures_raise.items()) + list(contract.ensures_all.items())
-        run.tags.append(f'exit:{outcome["kind"]}' + (f':{outcome["exc"].cls}' if outcome['kind'] == 'raise' else ''))
+        run.tags.append(f'exit:{outcome["kind"]}' + (f':{outcome["exc"].cls}@{outcome["exc"].origin}' if outcome['kind'] == 'raise' else ''))
         finals.append((run, outcome))
         registry.current = None
         for cname, fname in clauses:
             pcl = len(run.pc)
-            r = call_clause(ex, cm, fname, avail)
+            try:
+                r = call_clause(ex, cm, fname, avail)
+            except RaiseEx as rexc:
+                # the clause (spec) raises on this path although the real function returned: the clause is false here
+                run.notes.append(f'clause {fname} raised {rexc.exc.cls}@{rexc.exc.origin}')
+                r = False
             ob = run.oblige(f'{contract.id}.{cname}', 'post', _b(ex, r), {'clause': fname, 'outcome': outcome['kind']})
             ob.meta['raised'] = avail['raised']
         if contract.canary and outcome['kind'] == 'return':
